@@ -63,8 +63,10 @@ fn execute(step: &Step, inputs: &[String], loc_file: &str, loc_dir: &str) -> Res
         }
         Step::Counter { input, cfg, keep } => {
             super::c07::MERGE_KEEPS_CHUNKS.with(|c| c.set(*keep));
+            super::c07::KEEP_DIRECTORY_STATE.with(|c| c.set(true));
             let run = run_counter(&inputs[*input], loc_dir, cfg, None);
             super::c07::MERGE_KEEPS_CHUNKS.with(|c| c.set(false));
+            super::c07::KEEP_DIRECTORY_STATE.with(|c| c.set(false));
             run.result.map_err(|p| format!("panic: {}", p))?;
             let d = run.counts_raw.unwrap_or_default();
             Ok(vec![("kmers.counts(sorted)".into(), sorted_lines(&d).join(&b"\n"[..]))])
